@@ -25,13 +25,13 @@ class Backend:
         self.use_environ = use_environ
         self._module = None
 
-        # Split out api (if present).
-        if api:
-            self.api = api
-        elif self.name and '/' in self.name:
-            self.name, self.api = self.name.split('/', 1)
+        # Split out api (if present). An explicit api argument wins over
+        # the one given as part of the name.
+        if self.name and '/' in self.name:
+            self.name, name_api = self.name.split('/', 1)
         else:
-            self.api = None
+            name_api = None
+        self.api = api or name_api
 
         if load:
             self.load()
